@@ -446,7 +446,20 @@ def extras_family(idx, rng):
         rng.shuffle(fields)
         return fields
 
-    if rng.random() < 0.5:
+    r = rng.random()
+    if fam.idx % 4 == 3:
+        # the trait glue for Box<T>: a flattened struct and a subcommand enum held behind a Box
+        child = {"rust": fam.fresh_type("S"), "derive": "Args", "style": None, "fields": [
+            make_arg(fam, rng, "req", rng.choice(["str", "i64"]), "long", style),
+            make_arg(fam, rng, rng.choice(["opt", "bool", "vec"]), "str", "long", style)], "sub": None}
+        fam.types.append(("struct", child))
+        top_fields = [make_arg(fam, rng, rng.choice(["bool", "opt", "default"]), "str", "long", style)]
+        top_fields.append({"kind": "flatten", "ident": "_".join(fam.fresh_words()), "inner": child, "optional": False, "boxed": True})
+        if rng.random() < 0.5:
+            sub = sub_enum(fam, rng, enums, 1)
+            top_fields.append({"kind": "sub", "ident": "_".join(fam.fresh_words()), "inner": sub, "optional": rng.random() < 0.5, "boxed": True})
+        st = {"rust": fam.fresh_type("S"), "derive": "Parser", "style": None, "fields": top_fields, "sub": None}
+    elif r < 0.5:
         st = {"rust": fam.fresh_type("S"), "derive": "Parser", "style": None, "fields": cond_fields(rng.randint(1, 2)), "sub": None}
     else:
         child = {"rust": fam.fresh_type("S"), "derive": "Args", "style": None, "fields": cond_fields(1), "sub": None}
@@ -524,10 +537,14 @@ def field_decl(f):
     elif f["kind"] == "flatten":
         lines.append("#[command(flatten)]")
         t = f["inner"]["rust"]
+        if f.get("boxed"):
+            t = "Box<%s>" % t
         lines.append("%s: %s," % (f["ident"], "Option<%s>" % t if f["optional"] else t))
     elif f["kind"] == "sub":
         lines.append("#[command(subcommand)]")
         t = f["inner"]["rust"]
+        if f.get("boxed"):
+            t = "Box<%s>" % t
         lines.append("%s: %s," % (f["ident"], "Option<%s>" % t if f["optional"] else t))
     return lines
 
@@ -750,7 +767,7 @@ def main():
     ap.add_argument("--module-doc", default="committed corpus")
     ap.add_argument("--start", type=int, default=0, help="index of the first family (type name prefix T<idx>)")
     ap.add_argument("--no-systematic", action="store_true")
-    ap.add_argument("--extras", type=int, default=16, help="families with conditional defaults / mixed alias declarations")
+    ap.add_argument("--extras", type=int, default=24, help="families with conditional defaults / mixed alias declarations")
     a = ap.parse_args()
     rng = random.Random(a.seed)
     fams = []
